@@ -33,10 +33,12 @@ Inductive action :=
                                  (* self.items[k].value() / .error() asked by the body itself; the result is logged;
                                     an exception is swallowed (catch) or propagates out of the body                   *)
 | AReflush (catch : bool)        (* self.flush() called by the body                                                   *)
-| ASetRead (k : nat) (v : val) (j : nat) (kd : rkind).
+| ASetRead (k : nat) (v : val) (j : nat) (kd : rkind)
                                  (* self.items[k].set_value(v) after subscribing to its on_computed a callback that
                                     asks self.items[j] for its value()/error() (a dependent of item k needing its
                                     sibling); the callback logs what it got (exceptions included)                    *)
+| AReadBatch (kd : rkind) (catch : bool).
+                                 (* self.value() / self.error() asked by the body (REPAIRED behaviour, see batch_reread) *)
 
 (* ---------------------------------------------------------------- state *)
 Record item := mkI {
@@ -76,7 +78,8 @@ Inductive event :=
 | ECancel (b : nat)              (* _cancel hook of batch b called                           *)
 | EBatch (b : nat) (o : outcome)  (* on_computed of batch b fired; it observed outcome o      *)
 | ERead (b i : nat) (r : res)    (* while the body of b ran, item i of b was asked for its value()/error(): r *)
-| EReflush (b : nat) (r : res).  (* while the body of b ran, b.flush() was called: r         *)
+| EReflush (b : nat) (r : res)   (* while the body of b ran, b.flush() was called: r         *)
+| EBRead (b : nat) (r : res).    (* while the body of b ran, b.value()/b.error() was asked: r *)
 
 Record world := mkW {
   bat : nat -> batch;
@@ -207,6 +210,17 @@ Definition sibling_read (w : world) (b i : nat) (kd : rkind) : res :=
     end
   end.
 
+(* value()/error() of the batch itself asked while its body runs.  A finished batch (the body cancelled it)
+   reports its outcome.  For a pending batch this models the REPAIRED code (work/fixes/C11-compute-reentry.diff:
+   BatchBase._compute raises BatchingError while _flushing is set).  The unchanged code has no such guard:
+   FutureBase.value/error (futures.py 61-62, 96-97) call BatchBase._compute again, which runs the flush body a
+   second time nested inside the first - known finding reentrant-body:batch-value/error:body-ran-again. *)
+Definition batch_reread (w : world) (b : nat) (kd : rkind) : res :=
+  match bout (bat w b) with
+  | Some o => rep_of kd (Some o)
+  | None => RRaise E_BATCHING
+  end.
+
 Definition raised (r : res) : option exn := match r with RRaise e => Some e | _ => None end.
 
 (* one action of the body of batch b; Some e = the body raised e at this action *)
@@ -249,6 +263,8 @@ Definition exec1 (w : world) (b : nat) (a : action) : world * option exn :=
       end
     | None => (w, None)
     end
+  | AReadBatch kd c =>
+    let r := batch_reread w b kd in (emit w (EBRead b r), if c then None else raised r)
   end.
 
 Fixpoint exec (w : world) (b : nat) (acts : list action) : world * option exn :=
